@@ -432,11 +432,21 @@ async def _collect(request_iterator, ser):
 
 
 class _AioSUCall(_AioCallBase, aio.StreamUnaryCall):
-    def __init__(self, coro):
+    def __init__(self, coro, sim=None, op=None, path=None):
         self._task = asyncio.get_event_loop().create_task(coro, name=_name("su"))
+        self._sim, self._op, self._path = sim, op, path
 
     def __await__(self):
         return self._task.__await__()
+
+    def __del__(self):
+        # grpc.aio cancels an RPC whose call object is garbage-collected before it is done (Call.__del__): a caller -
+        # or an emitted method - that drops the call of a stream-unary RPC without awaiting it aborts that RPC
+        t = self._task
+        if t is not None and not t.done():
+            t.cancel()
+            if self._sim is not None:
+                self._sim.ev("call_dropped", op=self._op, path=self._path)
 
     async def write(self, request): raise NotImplementedError
     async def done_writing(self): pass
@@ -452,7 +462,7 @@ class _AioSU(_MC, aio.StreamUnaryMultiCallable):
             out = self.sim.attempt(self.path, "su", reqs, metadata, timeout, self.ch.cid)
             await _aio_deliver(self.sim, out, timeout)
             return self.de(out["reply"])
-        return _AioSUCall(run())
+        return _AioSUCall(run(), self.sim, op, self.path)
 
 
 class _AioSSCall(_AioStreamCall, aio.StreamStreamCall):
